@@ -293,7 +293,7 @@ def compare_step(ck: Check, h: Harness, state, got, ctx):
              "space": str(sp["id"]), "int_var": bool(h.int_cols), "normalize": bool(cfgd["normalize"]),
              "use_db": bool(cfgd["useDb"]), "store_jac": bool(cfgd["storeJac"]),
              "round_ints": bool(cfgd["roundInts"]), "frac_int": bool(ctx["frac"]), "call": str(ret["call"][0]),
-             "neg_zero_key": neg_zero, "complex_key": complex_key}
+             "neg_zero_key": neg_zero, "nonfloat_key": nonfloat_key}
         s.update(diff=h.diff, jac=h.variant["jac"], support_sparse=h.variant["support_sparse"],
                  build=h.variant["build"], cur=h.cur, pre_norm=h.variant["pre_norm"])
         s.update(kw)
@@ -324,7 +324,7 @@ def compare_step(ck: Check, h: Harness, state, got, ctx):
 
     # classification only: numpy's -0.0 among the implementation's keys
     neg_zero = any(bool(np.any(np.signbit(np.real(k.wrapped_array)) & (k.wrapped_array == 0))) for k in h.problem.database)
-    complex_key = any(np.iscomplexobj(k.wrapped_array) for k in h.problem.database)
+    nonfloat_key = any(k.wrapped_array.dtype != np.float64 for k in h.problem.database)
     # returned values / Jacobians
     for f in fns:
         exp = spec_vec(ret["outs"][f])
